@@ -43,6 +43,8 @@ type LongObs struct {
 	Reuse     bool   `json:"reuse"`
 	FirstRet  string `json:"first_ret,omitempty"`
 	Note      string `json:"note,omitempty"`
+	// Broadcast ("S") / CloseSession ("C") calls of the session in ledger order, after everything ended
+	Led []string `json:"led,omitempty"`
 }
 
 // seqProc: a retryable scripted process whose k-th Run blocks until gate k is opened (then returns
@@ -228,6 +230,11 @@ func runLongOnce(c Case, T time.Duration) *LongObs {
 			}
 			return n >= 1 && e.comm.Subscribers(sid, comm.TssStartMsg) >= 1
 		})
+		// (an initiate message first: the ready answer is a send of the retry phase)
+		nb := e.led.Count("Bcast", sid)
+		if e.comm.Deliver(sid, comm.TssInitiateMsg, peers[1], []byte{}) > 0 {
+			waitFor(func() bool { return aBack() || e.led.Count("Bcast", sid) > nb })
+		}
 		sm, _ := tssmsg.MarshalStartMessage([]byte{})
 		e.comm.Deliver(sid, comm.TssStartMsg, peers[1], sm)
 	}
@@ -278,6 +285,7 @@ func runLongOnce(c Case, T time.Duration) *LongObs {
 		}
 	}
 	finish("")
+	lo.Led = e.sessLedger(sid)
 	pend, known := e.pending(sid)
 	lo.Reuse = e.reuse(sid)
 	if !known {
@@ -334,7 +342,7 @@ func runLongFuture(c Case) Obs {
 	delete(longFutures, longKey(c)) // (a replayed / repeated case runs again)
 	longMu.Unlock()
 	lo := <-ch
-	return Obs{Long: lo, Note: lo.Note}
+	return Obs{Long: lo, Note: lo.Note, Led: lo.Led}
 }
 
 func genLong(tier string) []Case {
